@@ -15,6 +15,7 @@ observation (one per state): {"pool":[{"p","n","st","held","q","rh","fl","sn","o
 -/
 import CylcModel.Util.Drv
 import CylcModel.Sched3Crash
+import CylcModel.Generated.CrashFlags
 open Lean CylcModel.Drv
 
 namespace CylcModel.Sched3Crash
@@ -60,7 +61,11 @@ def objPairs (j : Json) : List (String × Json) :=
 def parseInst (j : Json) : Except String InstDef := do
   let pre ← ((jArrField? j "pre").getD []).mapM parsePre
   let sui ← ((jArrField? j "sui").getD []).mapM parsePre
-  let chJ := (jField? j "children").getD Json.null
+  -- the children in the real iteration order of `spawn_on_output` when the harness supplies it (the order decides
+  -- which spawnings precede the commit that follows the recording of an absolute output)
+  let chJ := match jOptField j "children_ord" with
+    | some c => c
+    | none => (jField? j "children").getD Json.null
   let children ← (objPairs chJ).mapM fun (k, v) => do
     let cs ← ((jArr? v).getD []).mapM fun c => do
       match jArr? c with
@@ -120,7 +125,9 @@ def parseGraph (j : Json) : Except String Graph := do
   let seqs := ((jArrField? j "seqs").getD []).map fun q => ((jArr? q).getD []).filterMap jInt?
   let stopPoint := (jOptField j "stop_point").bind jInt?
   let cfgStop := (jOptField j "cfg_stop").bind jInt?
-  return { icp, fcp, start, runahead, tasks, seqs, stopPoint, cfgStop }
+  return { icp, fcp, start, runahead, tasks, seqs, stopPoint, cfgStop,
+           poolAtRemove := CrashFlags.poolAtRemove, poolAtAbs := CrashFlags.poolAtAbs,
+           poolAtSuicide := CrashFlags.poolAtSuicide }
 
 def parseTaskId (s : String) : Except String (Int × String) :=
   match s.splitOn "/" with
